@@ -21,6 +21,8 @@ CLAIMED = {
          "Bounds are deliberate over-approximations from the tables; no obligation while faults flow; known findings b/c listed in known_findings.json."),
  "C10": ("fault_enumeration", "3.C10", "Crash-point enumeration inside seeded schedules: 7 scenarios x scenario seeds are run once to count loop callbacks N, then re-run with async_reset / async_set_spa_info / context exit injected after callback k (quick: seeded stratified sample of k; thorough: every k for scenarios up to 3000 callbacks, first 1500 + stride beyond), plus 5/20/50 consecutive reconnect cycles; oracle: transports closed, connection tasks done within 1 s, no library task after exit, no observer call or event from the abandoned connection during 300 s of late traffic and timers, bounded endpoints/tasks over cycles.",
          "'Promptly' = 1 s + injected stall; a callback boundary is an await point of some task; observers are harness callbacks registered via the public watch()."),
+ "C13": ("exploration", "3.C13", "Closed loop on a benign network: for every shipped snapshot the real client connects to the model spa and runs seeded histories of facade commands (every pump mode, blower/light/eco on/off from both states, target temperature, unit spellings, watercare by index/label) at drawn instants in both timing modes, some while another request is in flight; per command: exactly one (or zero when already in state) well-formed command reaches the spa, independently decoded (pack type, config/log versions, command-range sequence, keypad code from an independent table, field position, no collateral bits), the model's item reads the requested value and the facade reads it back after the echo.",
+         "Spa application semantics are a harness model (ModelSpa); temperature read-back within one raw unit; benign network only (the statement quantifies over inputs and histories, not faults)."),
 }
 PENDING = {}
 NA = {
